@@ -1,4 +1,4 @@
-// [A-derive] `#[derive(PartialEq, Eq)]` on DataEntry and Signal compares structurally (Strings by contents, which is
+// [A-derive] `#[derive(Clone)]` on DataEntry yields an equal value; `#[derive(PartialEq, Eq)]` on DataEntry and Signal compares structurally (Strings by contents, which is
 // value equality under the String model). The derived impls are not in /repo's text; these stand in for them.
 impl PartialEq for DataEntry {
     #[verifier::external_body]
@@ -7,6 +7,12 @@ impl PartialEq for DataEntry {
 impl PartialEqSpecImpl for DataEntry {
     open spec fn obeys_eq_spec() -> bool { true }
     closed spec fn eq_spec(&self, other: &Self) -> bool { *self == *other }
+}
+impl Clone for DataEntry {
+    #[verifier::external_body]
+    fn clone(&self) -> (r: Self)
+        ensures r == *self,
+    { unimplemented!() }
 }
 impl PartialEq for Signal {
     #[verifier::external_body]
